@@ -221,7 +221,7 @@ def build_function(api, owner, shape: int, names: Names, *, method_kind: int = 0
         p(type_=LiteralType(["a", 1, True]), optional=True, default='"a"')
         p(kind=PA.POSITIONAL_VARARG)  # untyped *args
         r(DictType(STR, ANY))
-        examples.append(">>> f(1)\n... # more\n2")
+        examples.append(f">>> {fname}(1)\n... # more of {fname}\n2")  # unique per function: the oracle counts occurrences
     elif shape == 12:
         p(type_=UnionType([STR, NONE]), kind=PA.POSITION_ONLY, optional=True, default=None)
         p(type_=INT, kind=PA.NAME_ONLY, optional=True, default=-3)
